@@ -495,6 +495,37 @@ def check(case, impl, repo=None):
                 j += 1
                 skip_close -= 1
                 continue
+            # `(S)e` of a scalar e is written `S { e, e, .. }`: one copy of the operand per member, so the operand must
+            # be free of side effects (no assignment, increment or call)
+            if a == "(" and (IDENT.match(b) or b == "::"):
+                k = i + 1
+                while k < len(H) and (IDENT.match(H[k]) or H[k] == "::"):
+                    k += 1
+                tname = H[i + 1:k]
+                if tname and k + 1 < len(H) and H[k] == ")" and H[k + 1] != "0" and M[j:j + len(tname)] == tname and M[j + len(tname):j + len(tname) + 1] == ["{"]:
+                    # the operand: a parenthesised group or one token
+                    if H[k + 1] == "(":
+                        d, e = 0, k + 1
+                        while e < len(H):
+                            if H[e] == "(":
+                                d += 1
+                            elif H[e] == ")":
+                                d -= 1
+                                if d == 0:
+                                    break
+                            e += 1
+                        operand, hnext = H[k + 2:e], e + 1
+                    else:
+                        operand, hnext = [H[k + 1]], k + 2
+                    parts, mj2 = group(M, j + len(tname))
+                    strip = lambda p: p[1:-1] if len(p) >= 2 and p[0] == "(" and p[-1] == ")" else p
+                    if parts and all(strip(p) == operand or p == operand for p in parts):
+                        impure = [t for t in operand if t in ("++", "--", "=", "+=", "-=", "*=", "/=", "%=", "<<=", ">>=", "&=", "|=", "^=")]
+                        calls = [operand[x] for x in range(len(operand) - 1) if IDENT.match(operand[x]) and operand[x + 1] == "(" and operand[x] not in ("int", "uint", "float", "bool", "half")]
+                        if len(parts) > 1 and (impure or calls):
+                            raise Mismatch("the struct cast `(%s)(%s)` is written with %d copies of its operand, which has side effects; %s" % (" ".join(tname), " ".join(operand), len(parts), ctx(i, j)))
+                        i, j = hnext, mj2
+                        continue
             # `(S)0` is written `S { 0, .. }` (aggregate of zeros)
             if a == "(" and (IDENT.match(b) or b == "::"):
                 k = i + 1
@@ -511,7 +542,7 @@ def check(case, impl, repo=None):
             raise Mismatch(ctx(i, j))
     except Mismatch as e:
         ns = nonsimple_intrinsics(repo)
-        if "is written as_type<" not in str(e) and any(x in ns - {"asint", "asuint", "asfloat"} for x in H[max(0, i - 40):i + 8]):
+        if "is written as_type<" not in str(e) and "copies of its operand" not in str(e) and any(x in ns - {"asint", "asuint", "asfloat"} for x in H[max(0, i - 40):i + 8]):
             return None      # the lowering of this intrinsic (helper, operator, as_type<>) is outside the rules
         return "the Metal text is not the HLSL text under the threading / reference rules: " + str(e)
     except IndexError:
